@@ -175,6 +175,7 @@
 //!
 //! :warning: Filenames are `String`s, which may contain path separator (`/`, `\`, `..`, etc.). Please consider this while using the API, to avoid path traversal issues.
 
+#![allow(unexpected_cfgs)] // `mla_verif`: verification hooks, see src/verif.rs
 use std::collections::HashMap;
 use std::convert::TryFrom;
 use std::io;
@@ -360,6 +361,9 @@ use sha2::{Digest, Sha256};
 use x25519_dalek::PublicKey;
 
 pub mod helpers;
+
+#[cfg(mla_verif)]
+pub mod verif;
 
 // -------- Constants --------
 
@@ -1310,7 +1314,10 @@ pub struct ArchiveFailSafeReader<'a, R: 'a + Read> {
 }
 
 // Size of the repaired file blocks
+#[cfg(not(mla_verif))]
 const CACHE_SIZE: usize = 8 * 1024 * 1024; // 8MB
+#[cfg(mla_verif)]
+const CACHE_SIZE: usize = crate::verif::parse_u64(env!("MLA_VERIF_CACHE_SIZE")) as usize;
 
 /// Used to update the error state only if it was `NoError`
 /// ```text
